@@ -23,9 +23,9 @@ Lemma ws2 : all_ws sp2. Proof. repeat constructor. Qed.
 
 Lemma cl1_ok : clauses_ok (base (s "libfoo") (Some any_arch)) cl1.
 Proof.
-  constructor; [apply ws1|discriminate|split; [discriminate|split; [apply wfst|split; [split; [apply ws2|split; [discriminate|constructor]]|apply ws2]]]|].
-  constructor; [apply ws2|discriminate|split; [apply ws1|split; [constructor|split; [apply ws2|split; [apply wfv1|split; [split; [discriminate|reflexivity]|reflexivity]]]]]|].
-  constructor; [apply ws2|discriminate|split; [discriminate|split; [apply wfa|split; [apply ws2|split; [apply ws1|reflexivity]]]]|].
+  constructor; [apply ws1|split; [discriminate|split; [apply wfst|split; [split; [apply ws2|split; [discriminate|constructor]]|apply ws2]]]|].
+  constructor; [apply ws2|split; [apply ws1|split; [constructor|split; [apply ws2|split; [apply wfv1|split; [split; [discriminate|reflexivity]|reflexivity]]]]]|].
+  constructor; [apply ws2|split; [discriminate|split; [apply wfa|split; [apply ws2|split; [apply ws1|reflexivity]]]]|].
   constructor.
 Qed.
 
